@@ -3,6 +3,7 @@ package main
 // Check mode: one property, all its units, verdicts against the committed baseline and known findings, evidence.
 
 import (
+	"golang.org/x/tools/go/ssa"
 	"encoding/json"
 	"fmt"
 	"go/types"
@@ -440,6 +441,9 @@ func resetGlobals() {
 	heapValType = map[string]types.Type{}
 	heapKeySort = map[string]string{}
 	heapKeyType = map[string]types.Type{}
+	iterMapTerm = map[string]string{}
+	iterKeyType = map[string]types.Type{}
+	iterOf = map[*ssa.Range]string{}
 }
 
 func writeReplayNote(verif, prop, name, text string, r *groupResult) string {
